@@ -803,3 +803,13 @@ HARMLESS += [
     # add_file: early `continue` for a matched blob, the position still advanced
     dict(id="H-C14-addfile-continue", prop="C14", file=RS13, old="            if matches {\n                self.matched_size += length;\n            } else {\n                self.restore_size += length;\n                has_unmatched = true;\n            }\n\n            file_pos += length;", new="            if matches {\n                self.matched_size += length;\n                file_pos += length;\n                continue;\n            }\n            self.restore_size += length;\n            has_unmatched = true;\n            file_pos += length;"),
 ]
+
+MUTATIONS += [
+    # the listing with sizes also reports directories / other non-regular entries whose name looks like an id
+    dict(id="C20-local-list-size-zero-on-error", prop="C20", file=LB13, old="            let length = length(entry.metadata(), &name, tpe)?;\n\n            Some((id, length))", new="            let length = length(entry.metadata(), &name, tpe).unwrap_or_default();\n\n            Some((id, length))"),
+]
+
+MUTATIONS += [
+    # the listing with sizes reports directories and other non-regular entries whose name is an id
+    dict(id="C20-local-list-reports-non-files", prop="C20", file=LB13, old="            if !entry.file_type().is_file() {\n                return None;\n            }\n            let name = entry.file_name().to_string_lossy();\n            let id = Id::parse_some(&name, tpe)?;\n            let length", new="            let name = entry.file_name().to_string_lossy();\n            let id = Id::parse_some(&name, tpe)?;\n            let length"),
+]
